@@ -15,6 +15,10 @@ from ..pathcond import calls_to, field_stores
 from . import C03, C06
 from .route import routing_sources
 
+from .. import roles
+
+from ..roles import upvar_index  # noqa: E402
+
 LEVEL = "other"
 CLASSIC = C03.CLASSIC
 CC = C06.CC
@@ -84,7 +88,8 @@ def d2_score_and_argmax(ctx):
                     v = fa.val_operand(t["args"][0], (bb, len(f.blocks[bb]["stmts"])))
                     ok = is_call(v, name_contains="<impl [T]>::iter") and v[2] == (("param", 1),)
         ctx.chk.ob("D2", "classic scans conns.iter().enumerate() (ascending, all links)", ok, "", key="D2:ascending-scan")
-        bl = [l for l, n in f.names.items() if n == "best_score"]
+        b0 = roles.running_extreme(ctx.w, f, None, tys=("i32",), hint="best_score")
+        bl = [b0] if b0 is not None else []
         cmp_ok = False
         if bl:
             for a in pa.bdd.vars:
@@ -163,7 +168,7 @@ def d3_window_rules(ctx):
     pce = ctx.fn("srtla_send::sender::packet_handler::process_connection_events::{closure#0}", "D3")
     if pce:
         fa = ctx.fa(pce)
-        ci = [i for i, nme in pce.upvar_names.items() if nme == "classic"]
+        ci = [i for i in [upvar_index(pce, "classic")] if i is not None]
         sites = calls_to(pce, stable=CONN + "::handle_srtla_ack_specific")
         ctx.chk.floor("D3", "handle_srtla_ack_specific call sites in process_connection_events", len(sites), 2)
         for (bb, t) in sites:
